@@ -40,6 +40,12 @@ func genC08Pool(g *Gen) []c08Region {
 		tables = tables[:2]
 	}
 	bounds := g.Splits(g.R.Range(1, 6), 3)
+	for i := range bounds {
+		if g.R.Chance(0.12) {
+			// keys at and beyond eight 0xff bytes (the scanner's padding constant)
+			bounds[i] = append(bytes.Repeat([]byte{0xff}, 8), bounds[i][:g.R.Intn(len(bounds[i])+1)]...)
+		}
+	}
 	bounds = append([][]byte{{}}, bounds...)
 	var pool []c08Region
 	n := g.R.Range(2, 14)
